@@ -47,6 +47,30 @@ claimed = {
    text="Differential enumeration of all first-user operation sequences up to the depth bound on Message, Args, pooled Socket and the handler context, followed by release/re-acquire (identity asserted under the LIFO pool) and every second-user sequence up to length 2; observable state and packed/reply bytes are compared with a fresh object.",
    note="Trusted base: vinstr + shims (LIFO pool guarantees the reuse actually happens).",
    technique="explicit-state enumeration of operation histories on the implementation with a differential (recycled vs fresh) oracle"),
+ "C09": dict(category="model_checking", design="DESIGN.md §3 C09",
+   text="Every plugin placement/verdict configuration of the alphabet (about 31k executions) is run on live sessions under every non-preemptive schedule and the recorded (plugin, stage, message) trace is compared with a reference trace builder written from the documented stage and registration order, including late appends to the global container, scoping against a second route, sibling chain isolation and the calling-side stages.",
+   note="Trusted base: vinstr + shims + the reference trace builder in scen/c09.go.",
+   technique="exhaustive configuration enumeration on live sessions under the controlled scheduler against a reference model"),
+ "C15": dict(category="model_checking", design="DESIGN.md §3 C15",
+   text="All histories up to the depth bound over 14 operations (calls, failure probes, proxied failures, plugin rejections) are executed; afterwards every failure probe and every predefined status is compared with its value before the history.",
+   note="Trusted base: vinstr + shims + an accessor (overlay, not in /repo) that lists the package-level predefined statuses.",
+   technique="explicit-state enumeration of operation histories on the implementation with a before/after differential oracle"),
+ "C16": dict(category="model_checking", design="DESIGN.md §3 C16",
+   text="A scripted client sends every first message of the alphabet, with pipelined application frames and every checker verdict, against the real accept path; all interleavings up to the preemption bound; handler/hook counters, AUTH_REPLY count, closure and index absence are checked.",
+   note="Trusted base: vinstr + shims; accept path through Peer.ServeConn.",
+   technique="exhaustive input-alphabet enumeration crossed with stateless schedule exploration (preemption bound)"),
+ "C17": dict(category="model_checking", design="DESIGN.md §3 C17",
+   text="The full marker x key x length product is run end to end for two body codecs; argument/result equality, plaintext absence on the captured wire, reply-encryption rule, key mismatch behaviour and byte-identity of unmarked traffic are checked under every non-preemptive schedule.",
+   note="Codecs able to carry the envelope in the harness: json, xml.",
+   technique="exhaustive configuration enumeration on live sessions under the controlled scheduler"),
+ "C18": dict(category="model_checking", design="DESIGN.md §3 C18",
+   text="Connection limiter: all histories up to the depth bound against a counter model, plus all interleavings of concurrent connects/disconnects; token bucket: all interleavings of taker threads and refill ticks against the arithmetic bound.",
+   note="Trusted base: vinstr + shims (ticker ticks are environment events fired by the harness; the limiter's own goroutine is a scheduler thread).",
+   technique="explicit-state history enumeration + stateless schedule exploration (preemption bound, happens-before state caching)"),
+ "C19": dict(category="model_checking", design="DESIGN.md §3 C19",
+   text="The full 4320-configuration product is run on a live client->proxy->backend chain and compared with the same request sent directly to an identical backend.",
+   note="Quick tier uses the deterministic default schedule per configuration; the thorough tier adds all non-preemptive schedules within a budget.",
+   technique="exhaustive configuration enumeration on live sessions with a metamorphic (proxied vs direct) oracle"),
 }
 pending = {}
 for i in range(1, 21):
